@@ -208,6 +208,8 @@ def run(pid, tier, seed, args, t0):
         for v, f in mine:
             case = cs.get(v["idx"], {})
             ce = [e for e in evs.get(v["idx"], []) if e.get("variant", v.get("variant")) == v.get("variant") or e.get("ev") in ("Render", "Lit")]
+            if v.get("pos"):
+                ce = [e for e in ce if e.get("ev") != "Lit" or e.get("pos") == v["pos"]]
             sig = signatures.signature(pid, f["w"], src, case, ce, f.get("i", 0),
                                        signatures.options_tag(fail_cfgs.get((v["idx"], f["w"]), [{}])))
             rec = {"property": pid, "what": f["w"], "source": src, "signature": sig, "case": case, "events": ce}
